@@ -2,8 +2,8 @@ HOOK_COMMITS = ["6c92ace", "87d794e", "4055187"]
 NOT_APPLICABLE = {}
 CHECKS = {
  "C03": {
-  "text": "Coq: verified checkers for what a conflict graph claims: truthfulb_sound (every edge states a true provider fact; requires groups show exactly the requirement's candidates or the unresolved node), reachableb_sound, refutesb_sound (the displayed facts + one-per-package on forbid-joined nodes admit no assignment installing the root; decided by unit propagation + splitting proven sound), check_core_sound (the clause ids reported in the Conflict, learnt clauses expanded through RUP-certified antecedents, are unsatisfiable with the root). Every Unsolvable's public ConflictGraph and hook core go through the extracted checkers.",
-  "technique": "Coq-verified graph checkers (truthfulness, reachability, refutation by sound propagation+splitting, RUP core certificate) applied to the implementation's conflict graphs",
+  "text": "Coq: executable model of Conflict::graph (Conflict/GraphBuild.v: node for node, edge for edge in petgraph index order incl. the swap-remove of the unresolved node) with C03_built_graph_truthful: for every provider, problem and clause list, a graph built from facts is truthful; the implementation's graph must equal the model's on every Unsolvable run and the dumped database must consist of facts. Verified checkers for what a conflict graph claims: truthfulb_sound (every edge states a true provider fact; requires groups show exactly the requirement's candidates or the unresolved node), reachableb_sound, refutesb_sound (the displayed facts + one-per-package on forbid-joined nodes admit no assignment installing the root; decided by unit propagation + splitting proven sound), check_core_sound (the clause ids reported in the Conflict, learnt clauses expanded through RUP-certified antecedents, are unsatisfiable with the root). Every Unsolvable's public ConflictGraph and hook core go through the extracted checkers.",
+  "technique": "Coq theorem about an executable model of the graph construction (truthful by construction) in node-for-node / edge-for-edge correspondence + Coq-verified graph checkers (truthfulness, reachability, refutation by sound propagation+splitting, RUP core certificate) applied to the implementation's conflict graphs",
  },
  "C06": {
   "text": 'Coq: C06_simplify_order_independent (the only hash-container iteration in the conflict report cannot leak its order). Every case is solved in several separate processes (per-process ahash seeds), debug and release, twice per process with fresh solvers: solution order, provider call order, conflict graph, graphviz and message text must be identical; a census of hash-container iteration sites in the anchored files is compared with a committed list that records why each site is harmless.',
